@@ -80,15 +80,15 @@ def tasks_c01(tier, seed):
 
 def tasks_c03(tier, seed):
     ts = seq("c03s", tier, shards=4)
-    scens = ["S1", "S2", "S3Reset", "S3ResetAll", "S3TokenEvent", "S3TokenEventWithID", "S3TokenReset", "S4", "S4q", "S6", "S7", "S8", "S8r", "Q6",
-             "QEshutdown", "QEshutdownBusy"]
+    scens = ["S1", "S2", "S3Reset", "S3ResetAll", "S3TokenEvent", "S3TokenEventWithID", "S3TokenReset", "S4", "S4q", "S6", "S7", "S8", "S8r", "S9",
+             "S10", "S11", "Q6", "QEshutdown", "QEshutdownBusy"]
     if tier == "quick":
         for s in scens:
-            big = s in ("S1", "S2", "Q6", "S8r", "QEshutdownBusy")
+            big = s in ("S1", "S2", "Q6", "S8r", "QEshutdownBusy", "S9")
             ts += explore(s, "w1-in4-default-direct", 2, shards=4 if big else 1, timeout="100s")
             if s == "QEshutdownBusy":
                 continue  # two workers: thorough tier only (1.5 million schedules at bound 1)
-            if s in ("S8", "S8r", "S4q"):
+            if s in ("S8", "S8r", "S4q", "S9"):
                 ts += explore(s, CFG_DEFAULT, 1, shards=2, timeout="100s")
             elif s != "Q6":
                 ts += explore(s, CFG_DEFAULT, 1 if big else 2, shards=2 if big else 1, timeout="100s")
@@ -224,6 +224,8 @@ def tasks_c16(tier, seed):
     if tier != "quick":
         ts += explore("QEconc", CFG_DEFAULT, 1, race=True, shards=16, timeout=to)
     ts += explore("S8", w1, b, race=True, timeout=to) + explore("S4q", w1, b, race=True, timeout=to)
+    # life-cycle races: double Shutdown, double Serve, Shutdown during the start-up of Serve
+    ts += explore("S9", w1, b, race=True, shards=2, timeout=to) + explore("S10", CFG_DEFAULT, 2, race=True, timeout=to) + explore("S11", CFG_DEFAULT, 2, race=True, timeout=to)
     ts += STORE_RACE_TASKS(tier)
     return ts
 
